@@ -284,6 +284,8 @@ class Interp(HeapMixin, OpsMixin, StmtMixin, CallMixin):
         try:
             return self.lookup_global(name, frame.relpath if frame else None)
         except E.Unsupported as ex:
+            if self.contract is not None and self.contract.options.get("closure") is not None:
+                raise      # a nested function under contract: an undeclared name is a free variable of the enclosing scope the contract does not know (undecided)
             if "not resolvable" in str(ex) and frame is not None and frame.relpath and not frame.relpath.startswith("<") and not self.pure:
                 # Python semantics: a local that is not (yet) bound on this path, or an unknown global -> UnboundLocalError / NameError
                 raise E.PyExc(VExc("UnboundLocalError" if self.is_local_name(name, frame) else "NameError"), f"name {name!r} is not defined")
